@@ -36,17 +36,26 @@ OBJS = {
     "v0": (14, "var", "v", 1, 8), "v1": (15, "var", "v", 1, 8), "vi": (16, "var", "v", 1, 2),
     "arr": (17, "sigarr", "s", 4, 8), "va": (18, "vararr", "v", 4, 8),
     "q0": (19, "conc", "s", 1, 8), "q1": (20, "conc", "s", 1, 8),
+    # ids 21, 22: locally declared signals.  One-bit objects (bool / Bit typed):
+    "f0": (23, "var", "v", 1, 1), "f1": (24, "var", "v", 1, 1), "g0": (25, "var", "v", 1, 1),
+    "sb": (26, "sig", "s", 1, 1), "b0": (27, "out", "s", 1, 1), "b1": (28, "out", "s", 1, 1), "b2": (29, "out", "s", 1, 1),
 }
 LOC_BASE = 21  # ids of locally declared signals
 INPUTS = ["c0", "c1", "c2", "c3", "x", "y", "idx"]
-PORT_OBS = ["o0", "o1", "o2", "o3", "p0", "p1", "q0", "q1"]
-INNER_OBS = ["s0", "v0", "v1", "vi", "arr", "va"]
+PORT_OBS = ["o0", "o1", "o2", "o3", "p0", "p1", "q0", "q1", "b0", "b1", "b2"]
+INNER_OBS = ["s0", "v0", "v1", "vi", "arr", "va", "sb", "f0", "f1", "g0"]
 PRE_OBS = ["q0", "q1"]
 ALL_OBS = ["q0@pre", "q1@pre"] + PORT_OBS + INNER_OBS
 SIG8 = ["o0", "o1", "o2", "o3", "s0"]       # assignable 8-bit signals
 RD_SIG8 = ["x", "y", "o0", "o1", "o2", "o3", "s0", "q0"]
 VAR8 = ["v0", "v1"]
 PUSH8 = ["p0", "p1"]
+BIT_RD = ["c0", "c1", "c2", "c3", "g0", "b0", "b1"]      # Bit typed
+BOOL_RD = ["f0", "f1", "sb", "b2"]                       # bool typed
+ONE_SIG = ["b0", "b1", "b2", "sb"]                       # assignable one-bit signals
+ONE_VAR = ["f0", "f1", "g0"]                             # one-bit variables
+PYTYPE = {"f0": "bool", "f1": "bool", "g0": "Bit", "v0": "Unsigned[8]", "v1": "Unsigned[8]"}
+CHAINS_OK = [False]   # bool(<bool temporary>) is generated only when the tree handles cast chains (see run)
 
 
 def oid(name):
@@ -97,7 +106,7 @@ class Gen:
         rng = self.rng
         sigonly = sigonly or sc.get("sigonly")
         r = rng.random()
-        names = [n for n, k in sc["names"].items() if k in ("tmp", "arg", "locsig", "ref", "refv")]
+        names = [n for n, k in sc["names"].items() if k in ("tmp", "arg", "locsig", "ref", "refv", "alias8")]
         if names and not sigonly and r < 0.25:
             n = rng.choice(names)
             return ["name", n]
@@ -158,6 +167,8 @@ class Gen:
 
     def cond(self, sc, sigonly=False):
         rng = self.rng
+        if rng.random() < 0.35:
+            return self.bexpr(dict(sc, sigonly=True) if sigonly else sc)[0]
         r = rng.random()
         if r < 0.45:
             return self.bitc(sc, sigonly)
@@ -179,11 +190,123 @@ class Gen:
             b = ["obj", "y"]
         return ["eq", a, b]
 
+    # ---- one-bit expressions: returns (expr, type) with type in bit | bool | any
+    def batom(self, sc, want=None):
+        rng = self.rng
+        sigonly = sc.get("sigonly")
+        kinds = {"tmpbit": "bit", "aliasbit": "bit", "tmpbool": "bool", "aliasbool": "bool", "tmpany": "any"}
+        names = [(n, kinds[k]) for n, k in sc["names"].items() if k in kinds and (want is None or kinds[k] == want)]
+        if names and not sigonly and rng.random() < 0.3:
+            n, t = rng.choice(names)
+            return ["name", n], t
+        bits = [n for n in BIT_RD if not (sigonly and n == "g0")]
+        bools = [n for n in BOOL_RD if not (sigonly and n in ("f0", "f1"))]
+        if want == "bit" or (want is None and rng.random() < 0.5):
+            if rng.random() < 0.2:
+                return ["sl", rng.choice(["x", "y", "o0"] + ([] if sigonly else ["v0"])), rng.randrange(4), 1], "bit"
+            return ["obj", rng.choice(bits)], "bit"
+        return ["obj", rng.choice(bools)], "bool"
+
+    def bexpr(self, sc, depth=2, want=None):
+        rng = self.rng
+        r = rng.random()
+        if depth == 0 or r < 0.35:
+            return self.batom(sc, want)
+        if want == "bit" or r < 0.55:
+            if rng.random() < 0.4:
+                return ["nb", self.bexpr(sc, depth - 1, "bit")[0]], "bit"
+            return [rng.choice(["andb", "orb"]), self.bexpr(sc, depth - 1, "bit")[0], self.bexpr(sc, depth - 1, "bit")[0]], "bit"
+        if r < 0.68:
+            return ["lnot", self.bexpr(sc, depth - 1)[0]], "bool"
+        if r < 0.86:
+            return [rng.choice(["land", "lor"]), self.bexpr(sc, depth - 1)[0], self.bexpr(sc, depth - 1)[0]], "bool"
+        if r < 0.93:
+            e, t = self.bexpr(sc, depth - 1)
+            if t == "bit" or (e[0] == "obj" and t == "bool") or CHAINS_OK[0]:
+                self.stat("bool-cast")
+                return ["boolc", e], "bool"
+            return ["lnot", e], "bool"
+        a = self.atom8(sc)
+        return ["eq", a if a[0] != "name" else ["obj", "x"], ["c", rng.randrange(6), 8]], "bool"
+
+    def fresh_one(self, sc):
+        """a one-bit expression that certainly is a fresh temporary (never a bare object / name)"""
+        e, t = self.bexpr(sc, 2)
+        if e[0] in ("obj", "name", "sl"):
+            e, t = ["lnot", e], "bool"
+        return e, t
+
+    def snapshot(self, sc):
+        """capture the value of a VARIABLE in a local name, reassign the variable, use the capture afterwards:
+        the captured value must not change (an alias `x = v` follows the variable instead)"""
+        rng = self.rng
+        v = rng.choice(["f0", "f1", "g0", "v0", "v1", "f0", "f1"])
+        V = ["obj", v]
+        typ = {"f0": "bool", "f1": "bool", "g0": "bit"}.get(v, "8")
+        self.ntmp += 1
+        nm = f"k{self.ntmp}"
+        r = rng.random()
+        out = []
+        if r < 0.12:
+            out.append(["alias", nm, v])
+            kind = {"bool": "aliasbool", "bit": "aliasbit", "8": "alias8"}[typ]
+            self.stat("alias-of-variable")
+        else:
+            if typ == "8":
+                e, kind = rng.choice([(["copy", V], "tmp"), (["valc", PYTYPE[v], V], "tmp"), (["add", V, ["c", rng.choice([1, 2, 5]), 8]], "tmp"),
+                                      (["eq", V, rng.choice([["obj", "x"], ["c", rng.randrange(4), 8]])], "tmpbool"),
+                                      (["ife", self.cond(sc), V, ["obj", "x"]], "tmp")])
+            elif typ == "bool":
+                o = self.batom(sc)[0]
+                e, kind = rng.choice([(["boolc", V], "tmpbool"), (["boolc", V], "tmpbool"), (["copy", V], "tmpbool"), (["valc", "bool", V], "tmpbool"),
+                                      (["lnot", V], "tmpbool"), (["land", V, o], "tmpbool"), (["lor", o, V], "tmpbool")])
+            else:
+                o = self.batom(sc, "bit")[0]
+                e, kind = rng.choice([(["boolc", V], "tmpbool"), (["copy", V], "tmpbit"), (["valc", "Bit", V], "tmpbit"), (["nb", V], "tmpbit"),
+                                      (["andb", V, o], "tmpbit"), (["lnot", V], "tmpbool"), (["lor", V, o], "tmpbool")])
+            out.append(["let", nm, e])
+            self.stat("snapshot-" + e[0] + "-" + typ)
+        sc["names"][nm] = kind
+        if rng.random() < 0.3:
+            out.append(self.assign(sc))
+        # reassign the variable
+        form = rng.choice(["op", "prop"])
+        if typ == "8":
+            out.append(["as", "v", V, rng.choice([["add", V, V], ["add", V, ["c", rng.choice([1, 3]), 8]], self.expr8(sc)]), form])
+        elif typ == "bool":
+            out.append(["as", "v", V, rng.choice([["lnot", V], ["obj", rng.choice(["c0", "c1", "c2"])], self.bexpr(sc)[0]]), form])
+        else:
+            out.append(["as", "v", V, rng.choice([["nb", V], ["obj", rng.choice(["c0", "c1", "c2"])], self.bexpr(sc, 2, "bit")[0]]), form])
+        # use the capture
+        N = ["name", nm]
+        k8 = kind in ("tmp", "alias8")
+        r = rng.random()
+        if r < 0.45:
+            out.append(["as", "n", ["obj", rng.choice(SIG8 if k8 else ONE_SIG)], N, "op"])
+        elif r < 0.6 and not k8:
+            out.append(["as", "v", ["obj", rng.choice([x for x in ONE_VAR if x != v] or ["f1"])], N, "op"])
+        elif r < 0.8 and not k8:
+            out.append(["if", [[N, [self.assign(sc)]]], [self.assign(sc)]])
+        elif k8:
+            out.append(["as", "n", ["obj", rng.choice(SIG8)], ["add", N, ["obj", v]], "op"])
+        else:
+            out.append(["as", "n", ["obj", rng.choice(ONE_SIG)], [rng.choice(["land", "lor"]), N, V], "op"])
+        return out
+
     # ---- statements
     def assign(self, sc):
         rng = self.rng
         r = rng.random()
         form = rng.choice(["op", "prop"])
+        if rng.random() < 0.22:
+            e, t = self.bexpr(sc)
+            if rng.random() < 0.12:
+                e = ["cb", rng.randrange(2)]
+            if rng.random() < 0.55:
+                self.stat("one-bit-signal")
+                return ["as", "n", ["obj", rng.choice(ONE_SIG)], e, form]
+            self.stat("one-bit-variable")
+            return ["as", "v", ["obj", rng.choice(ONE_VAR)], e, form]
         refs = [n for n, k in sc["names"].items() if k in ("ref", "refv", "locsig")]
         if refs and r < 0.12:
             n = rng.choice(refs)
@@ -247,13 +370,21 @@ class Gen:
                 s2 = self.sub(sc)
                 s2["lv"] = True
                 out.append(["for", rng.choice([2, 3]), self.block(s2, 0, n=rng.choice([1, 2]))])
-            elif r < 0.81 and sc["scope_top"]:
+            elif r < 0.79 and sc["scope_top"]:
                 self.ntmp += 1
                 nm = f"t{self.ntmp}"
-                self.stat("local-name")
-                out.append(["let", nm, self.binop8(sc)])
-                sc["names"][nm] = "tmp"
-            elif r < 0.86 and sc["scope_top"]:
+                if rng.random() < 0.5:
+                    self.stat("local-name")
+                    out.append(["let", nm, self.binop8(sc)])
+                    sc["names"][nm] = "tmp"
+                else:
+                    self.stat("local-name-one-bit")
+                    e, t = self.fresh_one(sc)
+                    out.append(["let", nm, e])
+                    sc["names"][nm] = "tmpbit" if t == "bit" else "tmpbool"
+            elif r < 0.84 and sc["scope_top"]:
+                out += self.snapshot(sc)
+            elif r < 0.88 and sc["scope_top"]:
                 self.ntmp += 1
                 nm = f"r{self.ntmp}"
                 a = rng.choice(["arr", "va"])
@@ -266,13 +397,13 @@ class Gen:
                     out.append(["as", "v", ["obj", "vi"], ["add", ["obj", "vi"], ["c", rng.choice([1, 2, 3]), 2]], rng.choice(["op", "prop"])])
                     out.append(["as", "v" if a == "va" else "n", ["name", nm], self.expr8(sc), "op"])
                     self.stat("index-operand-changed-after-access")
-            elif r < 0.89 and sc["scope_top"] and sc["main"] and self.nloc < 2:
+            elif r < 0.90 and sc["scope_top"] and sc["main"] and self.nloc < 2:
                 nm = f"loc{self.nloc}"
                 self.stat("local-signal")
                 out.append(["decl", nm, LOC_BASE + self.nloc, self.expr8(sc, allow_const=False)])
                 self.nloc += 1
                 sc["names"][nm] = "locsig"
-            elif r < 0.92 and sc["scope_top"] and sc["main"]:
+            elif r < 0.925 and sc["scope_top"] and sc["main"]:
                 self.ntmp += 1
                 nm = f"a{self.ntmp}"
                 if rng.random() < 0.6 or self.alwq:
@@ -350,9 +481,19 @@ class Gen:
         return ["forbrk", rng.choice([2, 3, 4]), self.lv_cond(sc), body, els]
 
     # ---- helper functions
-    def ret_expr(self, sc):
+    def ret_expr(self, sc, value=True):
         """a returned value is always a fresh temporary: a function whose returns all name the same Variable object
         returns the object itself (alias, as in Python) - not a value; keep that out of the value semantics"""
+        if value is None or value is False:
+            return None
+        if value == "b":
+            # one-bit result: Bit or bool typed per branch (the compiler muxes them); arguments may be returned as they are
+            e, t = self.bexpr(sc, 1)
+            if e[0] == "name" and sc["names"].get(e[1]) in ("tmpbool", "tmpbit", "tmpany"):
+                return e
+            if e[0] in ("obj", "sl", "name"):
+                e = ["boolc", e] if (t == "bit" or e[0] == "obj") else ["lnot", e]
+            return e
         e = self.expr8(sc, 1, allow_const=False)
         if e[0] in ("obj", "el", "name"):
             e = ["add", e, ["c", self.rng.choice([1, 2, 4]), 8]]
@@ -397,7 +538,7 @@ class Gen:
                 s2 = self.sub(sc)
                 s2["scope_top"] = False
                 s2["lv"] = True
-                body = self.block(s2, 0, n=rng.choice([0, 1])) + [["ret", self.ret_expr(s2) if value else None]]
+                body = self.block(s2, 0, n=rng.choice([0, 1])) + [["ret", self.ret_expr(s2, value)]]
                 s3 = self.sub(sc)
                 s3["scope_top"] = False
                 out.append(["forret", rng.choice([2, 3]), self.lv_cond(sc), body, self.fn_block(s3, 0, value, True)])
@@ -405,29 +546,44 @@ class Gen:
             else:
                 out += self.block(sc, min(depth, 1), n=1)
         if must_return:
-            out.append(["ret", self.ret_expr(sc) if value else None])
+            out.append(["ret", self.ret_expr(sc, value)])
         return out
 
     def gen_call(self, sc, depth):
         rng = self.rng
         self.ncalls += 1
-        value = rng.random() < 0.7
+        value = rng.choice([True, True, "b", "b", False])
         nargs = rng.choice([0, 1, 2])
-        names = {f"a{chr(97 + j)}": "arg" for j in range(nargs)}
-        fsc = {"names": names, "scope_top": True, "main": False, "calldepth": sc["calldepth"] + 1}
+        # parameters: 8-bit values (`arg`) or one-bit captures (`tmpbool`)
+        names = {f"a{chr(97 + j)}": rng.choice(["arg", "arg", "tmpbool"]) for j in range(nargs)}
+        fsc = {"names": dict(names), "scope_top": True, "main": False, "calldepth": sc["calldepth"] + 1}
         params = list(names)
-        body = self.fn_block(fsc, 2, value, value)
+        body = self.fn_block(fsc, 2, value, bool(value))
         self.funcs.append({"params": params, "body": body, "value": value})
         fidx = len(self.funcs) - 1
-        args = [rng.choice([["obj", rng.choice(["x", "y", "o0", "s0"])], self.binop8(sc)]) for _ in range(nargs)]
-        self.stat("call-value" if value else "call-proc")
+        args = []
+        for pn in params:
+            if names[pn] == "arg":
+                args.append(rng.choice([["obj", rng.choice(["x", "y", "o0", "s0"])], self.binop8(sc)]))
+            else:
+                # a captured one-bit value is passed into the helper (never a bare variable: that would be an alias)
+                caps = [n for n, k in sc["names"].items() if k in ("tmpbool", "tmpbit", "tmpany")]
+                if caps and rng.random() < 0.6:
+                    args.append(["name", rng.choice(caps)])
+                else:
+                    args.append(rng.choice([["boolc", ["obj", rng.choice(["f0", "f1", "g0", "c0"])]], self.fresh_one(sc)[0]]))
+                self.stat("one-bit-capture-into-helper")
+        self.stat("call-value" if value is True else "call-one-bit" if value == "b" else "call-proc")
         if not value:
             return ["callp", fidx, args]
         if sc["scope_top"] and rng.random() < 0.4:
             self.ntmp += 1
             nm = f"t{self.ntmp}"
-            sc["names"][nm] = "tmp"
+            sc["names"][nm] = "tmp" if value is True else "tmpany"
             return ["callv", nm, fidx, args]
+        if value == "b":
+            mode, tgt = rng.choice([("n", rng.choice(ONE_SIG)), ("n", rng.choice(ONE_SIG)), ("v", rng.choice(ONE_VAR))])
+            return ["calla", mode, ["obj", tgt], fidx, args]
         mode, tgt = rng.choice([("n", rng.choice(SIG8)), ("n", rng.choice(SIG8)), ("v", rng.choice(VAR8)), ("p", rng.choice(PUSH8))])
         return ["calla", mode, ["obj", tgt], fidx, args]
 
@@ -450,6 +606,8 @@ def gen_design(rng, size, depth):
     g.gen_conc()
     dfl = {n: rng.randrange(256) for n in SIG8 + VAR8 + PUSH8}
     dfl["vi"] = rng.randrange(4)
+    for n in ONE_SIG + ONE_VAR:
+        dfl[n] = rng.randrange(2)
     return {"body": body, "funcs": g.funcs, "conc": g.conc, "dflt": dfl, "stats": g.stats}
 
 
@@ -462,6 +620,20 @@ def py_expr(e, ent, lv="i"):
     k = e[0]
     if k == "c":
         return f"Unsigned[4]({e[1]})" if e[2] == 4 else str(e[1])
+    if k == "cb":
+        return "True" if e[1] else "False"
+    if k == "lnot":
+        return f"(not {py_expr(e[1], ent, lv)})"
+    if k == "land":
+        return f"({py_expr(e[1], ent, lv)} and {py_expr(e[2], ent, lv)})"
+    if k == "lor":
+        return f"({py_expr(e[1], ent, lv)} or {py_expr(e[2], ent, lv)})"
+    if k == "boolc":
+        return f"bool({py_expr(e[1], ent, lv)})"
+    if k == "copy":
+        return f"{py_expr(e[1], ent, lv)}.copy()"
+    if k == "valc":
+        return f"std.Value[{e[1]}]({py_expr(e[2], ent, lv)})"
     if k == "lv":
         return lv if e[1] == 0 else f"({lv} + {e[1]})"
     if k == "obj":
@@ -544,6 +716,8 @@ def py_block(stmts, ind, ent, lv="i"):
             _LOOPS.pop()
         elif k == "let":
             out.append(f"{pad}{s[1]} = {py_expr(s[2], ent, lv)}")
+        elif k == "alias":
+            out.append(f"{pad}{s[1]} = {ent}.{s[2]}")
         elif k == "bind":
             out.append(f"{pad}{s[1]} = {ent}.{s[2]}[{py_expr(s[3], ent, lv)}]")
         elif k == "decl":
@@ -586,6 +760,9 @@ def render_source(d):
     out.append("    idx = Port.input(Unsigned[2])")
     for n in ("o0", "o1", "o2", "o3", "p0", "p1"):
         out.append(f"    {n} = Port.output(Unsigned[8], default={dfl[n]})")
+    for n in ("b0", "b1"):
+        out.append(f"    {n} = Port.output(Bit, default={bool(dfl.get(n, 0))})")
+    out.append(f"    b2 = Port.output(bool, default={bool(dfl.get('b2', 0))})")
     out.append("    q0 = Port.output(Unsigned[8], default=Null)")
     out.append("    q1 = Port.output(Unsigned[8], default=Null)")
     out.append("")
@@ -594,6 +771,10 @@ def render_source(d):
     out.append(f"        self.v0 = Variable[Unsigned[8]]({dfl['v0']}, name='v0')")
     out.append(f"        self.v1 = Variable[Unsigned[8]]({dfl['v1']}, name='v1')")
     out.append(f"        self.vi = Variable[Unsigned[2]]({dfl['vi']}, name='vi')")
+    out.append(f"        self.f0 = Variable[bool]({bool(dfl.get('f0', 0))}, name='f0')")
+    out.append(f"        self.f1 = Variable[bool]({bool(dfl.get('f1', 0))}, name='f1')")
+    out.append(f"        self.g0 = Variable[Bit]({bool(dfl.get('g0', 0))}, name='g0')")
+    out.append(f"        self.sb = Signal[bool]({bool(dfl.get('sb', 0))}, name='sb')")
     out.append("        self.arr = Signal[Array[Unsigned[8], 4]](Null, name='arr')")
     out.append("        self.va = Variable[Array[Unsigned[8], 4]](Null, name='va')")
     out.append("")
@@ -626,8 +807,20 @@ class Sx:
 
     def expr(self, e, env):
         k = e[0]
-        if k == "c":
+        if k in ("c", "cb"):
             return f"(c {e[1]})"
+        if k == "lnot":
+            return f"(not {self.expr(e[1], env)})"
+        if k == "land":
+            return f"(and {self.expr(e[1], env)} {self.expr(e[2], env)})"
+        if k == "lor":
+            return f"(or {self.expr(e[1], env)} {self.expr(e[2], env)})"
+        if k == "boolc":
+            return f"(not (not {self.expr(e[1], env)}))"
+        if k == "copy":
+            return self.expr(e[1], env)
+        if k == "valc":
+            return self.expr(e[2], env)
         if k == "lv":
             return f"(c {env['__lv'] + e[1]})"
         if k == "obj":
@@ -643,6 +836,8 @@ class Sx:
             b = env[e[1]]
             if b[0] in ("tmp", "locsig"):
                 return f"(t {b[1]})"
+            if b[0] == "alias":      # `x = self.v`: the name denotes the object itself
+                return self.expr(["obj", b[1]], env)
             return f"(rd {OBJS[b[2]][2]} {oid(b[2])} (t {b[1]}) 0 8)"     # reference with captured index
         if k == "nsl":
             return f"(sl (t {env[e[1]][1]}) {e[2]} {e[3]})"
@@ -729,6 +924,8 @@ class Sx:
                 kk = self.fresh()
                 out.append(f"(cap {kk} {self.expr(s[2], env)})")
                 env[s[1]] = ("tmp", kk)
+            elif k == "alias":
+                env[s[1]] = ("alias", s[2])
             elif k == "bind":
                 kk = self.fresh()
                 out.append(f"(cap {kk} {self.expr(s[3], env)})")
@@ -1087,7 +1284,36 @@ def fixed_designs():
         _as("n", ["sl", "o1", 0, 4], ["nsl", "loc0", 0, 4]),
         ["alw", "a1", ["add", O("x"), O("s0")]], _as("p", O("p0"), ["name", "a1"]),
         ["alwq", "q1", ["add", O("s0"), C(1)]]], [f0, f1, f2], [["q0", ["ife", O("c0"), ["add", O("o0"), O("x")], O("o1")]]]))
+    # a value captured from a variable does not change when the variable is reassigned later in the activation
+    # (bool(v) / v.copy() / std.Value snapshots of bool, Bit and vector variables; an alias `a = self.v` follows v)
+    fh = {"params": ["old"], "value": "b", "body": [["if", [[O("c0"), [["ret", O("c1")]]]], None], ["ret", ["name", "old"]]]}
+    ds.append(("law:captured-value-stable", [
+        ["let", "before", ["boolc", O("f0")]], ["calla", "v", O("f0"), 0, [["name", "before"]]],
+        _as("n", O("b0"), ["name", "before"]), _as("n", O("b1"), O("f0")),
+        ["if", [[O("f0"), [["if", [[["name", "before"], [_as("n", O("b2"), ["cb", 0])]]], [_as("n", O("b2"), ["cb", 1])]]]]],
+         [_as("n", O("b2"), ["cb", 0])]],
+        ["let", "kg", ["copy", O("g0")]], _as("v", O("g0"), ["nb", O("g0")]), _as("n", O("sb"), ["name", "kg"]),
+        ["let", "k8", ["valc", "Unsigned[8]", O("v0")]], _as("v", O("v0"), ["add", O("v0"), O("v0")]), _as("n", O("o0"), ["name", "k8"]),
+        ["let", "kn", ["land", O("f1"), ["lnot", O("g0")]]],
+        ["alias", "a1", "f1"], _as("v", O("f1"), ["lnot", O("f1")], "prop"),
+        ["if", [[["name", "a1"], [_as("n", O("o1"), C(71))]]], [_as("n", O("o1"), C(72))]],
+        ["if", [[["name", "kn"], [_as("n", O("o2"), C(73))]]], [_as("n", O("o2"), C(74))]]], [fh], []))
     return [(name, {"body": b, "funcs": f, "conc": c, "dflt": dict(dfl), "stats": {}}) for name, b, f, c in ds]
+
+
+CHAIN_SIGNATURE = "c03:fixed:bool-cast-chain"
+
+
+def chain_design():
+    """bool(...) applied to a value that already is a boolean temporary, the result used again in a boolean context /
+    assigned: `cleanup_bool_cast` drops both casts but does not follow the chain of replacements"""
+    O = lambda n: ["obj", n]  # noqa
+    C = lambda n, w=8: ["c", n, w]  # noqa
+    body = [["let", "m", ["boolc", ["eq", O("x"), O("y")]]],
+            ["if", [[["name", "m"], [_as("n", O("o0"), C(61))]]], [_as("n", O("o0"), C(62))]],
+            ["let", "k", ["boolc", ["boolc", ["lor", O("c0"), O("c1")]]]], _as("n", O("b2"), ["name", "k"])]
+    dfl = {"o0": 1, "o1": 2, "o2": 3, "o3": 4, "s0": 5, "p0": 6, "p1": 7, "v0": 1, "v1": 2, "vi": 0}
+    return {"body": body, "funcs": [], "conc": [], "dflt": dfl, "stats": {}}
 
 
 # ---------------------------------------------------------------------------------------------------
@@ -1115,6 +1341,30 @@ def run(ctx: Ctx):
                 "distinct = distinct rendered source")
     n_prog = ctx.scale(260, 3000)
     n_seq, seq_len = ctx.scale(3, 5), ctx.scale(14, 24)
+
+    # cast chains: checked on one fixed design; the generator produces them only when that design behaves
+    cd = chain_design()
+    csrc, csx = render_source(cd), prog_sexp(cd)
+    cc = fork_map(compile_task, [csrc])[0]
+    if cc[0] != "ok" or not cc[1]["ok"]:
+        raise InfraError(f"cast-chain design is rejected by the compiler: {cc[1]}")
+    cseqs = [[[a, b, 0, 0, xx, yy, 0] for a, b, xx, yy in ((0, 0, 1, 2), (1, 0, 3, 3), (0, 1, 4, 4), (0, 0, 5, 6), (1, 1, 0, 0))]]
+    try:
+        cb = compare(csx, cc[1]["vhdl"], cseqs)
+    except InfraError:
+        raise
+    except Exception as e:  # noqa
+        cb = (cseqs[0], 0, "-", f"cannot execute: {e}")
+    CHAINS_OK[0] = cb is None
+    ctx.case(key=csrc, nontrivial=True, kind="law:bool-cast-chain")
+    if cb is not None:
+        ctx.report(CHAIN_SIGNATURE,
+                   f"`m = bool(x == y); if m:` / `k = bool(bool(c0 or c1)); b2 <<= k`: the emitted process reads a temporary that is never "
+                   f"assigned (clock {cb[1]}: {describe(cb[2], cb[3]) if cb[2] != '-' else cb[3]})",
+                   {"design": cd, "source": csrc, "stmt": csx, "inputs": cb[0], "clock": cb[1], "observed_objects": ALL_OBS,
+                    "expected": cb[2], "observed": cb[3], "vhdl": cc[1]["vhdl"]})
+    ctx.obligation("cast chains: bool(bool(..)) / bool(compare) used in a boolean context behave like the captured value", cb is None)
+    ctx.extra["cast_chains_generated"] = CHAINS_OK[0]
 
     fixed = fixed_designs()
     designs = [d for _, d in fixed]
